@@ -51,7 +51,7 @@ def run_check(ctx, mod, args):
     if not args.no_lean:
         if hasattr(mod, "gen"):
             gen_info = mod.gen(ctx)
-        ok, log, broken = core.lean_build(mod.LEAN_TARGETS + ["SqVerif.Drive"])
+        ok, log, broken = core.lean_build(mod.LEAN_TARGETS + list(getattr(mod, "DRIVE_TARGETS", [])))
         if not ok:
             ctx.lean_ok = False
             proof_broken = broken
